@@ -21,6 +21,13 @@ use std::task::{Context, Poll, Wake, Waker};
 
 type RunQ = Arc<std::sync::Mutex<std::collections::BTreeSet<usize>>>;
 
+fn give_back(h: ContextHandle, ret: Option<Rc<RefCell<Option<ContextHandle>>>>) {
+    match ret {
+        Some(slot) => *slot.borrow_mut() = Some(h),
+        None => drop(h),
+    }
+}
+
 /// Per-task wake flag. Woken op tasks also enter a shared run set so that finding the next runnable
 /// task does not scan every task (the long deterministic runs have 65 535 of them).
 pub struct Flag {
@@ -227,6 +234,8 @@ pub struct World {
     pub ops: Vec<Task>,
     pub streams: Vec<Task>,
     pub master: Option<ContextHandle>,
+    /// the long-lived worker handle (None: not created yet, or inside the operation it is running)
+    pub worker: Rc<RefCell<Option<ContextHandle>>>,
     maybe_msgs: bool,
     decoded_upto: usize,
     wire_broken: bool,
@@ -312,6 +321,7 @@ impl World {
             ops: Vec::new(),
             streams: Vec::new(),
             master: Some(handle),
+            worker: Rc::new(RefCell::new(None)),
             maybe_msgs: false,
             decoded_upto: 0,
             wire_broken: false,
@@ -359,7 +369,30 @@ impl World {
         self.start_op_on(spec, h)
     }
 
-    pub fn start_op_on(&mut self, spec: OpSpec, mut h: ContextHandle) -> usize {
+    /// Start an operation on the long-lived worker handle (mode 1: the handle itself, given back to
+    /// its slot when the operation completes; mode 2: a clone of it taken now). The worker is a clone
+    /// of the master handle made when first needed. State an implementation keeps inside a handle
+    /// between operations, or copies when a handle is cloned, only shows this way.
+    pub fn start_op_worker(&mut self, spec: OpSpec, mode: u8) -> usize {
+        if self.worker.borrow().is_none() {
+            let h = self.handle();
+            *self.worker.borrow_mut() = Some(h);
+        }
+        if mode == 1 {
+            let h = self.worker.borrow_mut().take().expect("harness: worker handle is busy");
+            let slot = self.worker.clone();
+            self.start_op_ret(spec, h, Some(slot))
+        } else {
+            let h = self.worker.borrow().as_ref().expect("harness: worker handle is busy").clone();
+            self.start_op_ret(spec, h, None)
+        }
+    }
+
+    pub fn start_op_on(&mut self, spec: OpSpec, h: ContextHandle) -> usize {
+        self.start_op_ret(spec, h, None)
+    }
+
+    fn start_op_ret(&mut self, spec: OpSpec, mut h: ContextHandle, ret: Option<Rc<RefCell<Option<ContextHandle>>>>) -> usize {
         let op = self.ops.len();
         let sh = self.sh.clone();
         sh.borrow_mut().rsps.push(None);
@@ -371,13 +404,13 @@ impl World {
         let fut: BoxFut = match spec {
             OpSpec::Publish(p) => Box::pin(async move {
                 let r = h.publish(p.opts()).await;
-                drop(h);
+                give_back(h, ret);
                 let d = unit_result_dig(&r);
                 sh.borrow_mut().log.push(Ob::Done { op, res: d });
             }),
             OpSpec::Subscribe(p) => Box::pin(async move {
                 let r = h.subscribe(p.opts()).await;
-                drop(h);
+                give_back(h, ret);
                 let d = match &r {
                     Ok(rsp) => suback_dig(rsp),
                     Err(e) => err_dig(e),
@@ -390,7 +423,7 @@ impl World {
             }),
             OpSpec::Unsubscribe(p) => Box::pin(async move {
                 let r = h.unsubscribe(p.opts()).await;
-                drop(h);
+                give_back(h, ret);
                 let d = match &r {
                     Ok(rsp) => unsuback_dig(rsp),
                     Err(e) => err_dig(e),
@@ -399,13 +432,13 @@ impl World {
             }),
             OpSpec::Ping => Box::pin(async move {
                 let r = h.ping().await;
-                drop(h);
+                give_back(h, ret);
                 let d = unit_result_dig(&r);
                 sh.borrow_mut().log.push(Ob::Done { op, res: d });
             }),
             OpSpec::Disconnect(p) => Box::pin(async move {
                 let r = h.disconnect(p.opts()).await;
-                drop(h);
+                give_back(h, ret);
                 let d = unit_result_dig(&r);
                 sh.borrow_mut().log.push(Ob::Done { op, res: d });
             }),
